@@ -1,6 +1,7 @@
 ----------------------------------- MODULE ThermalExpansion_trace -----------------------------------
 (* code -> spec: every recorded history of calls on real armi components must be a behaviour of ThermalExpansion.
-   An event is {"a": <call>, "post": {"err": "" | "RuntimeError", "T": [T1, T2], "link": [[..],[..]]}}: TLC checks that
+   An event is {"a": <call>, "post": {"err": "" | "RuntimeError", "T": [T1, T2, T3], "link": [[..],[..],[..]], "src": s}}
+   (component 3 = the duplicate made by copy.copy, src = 0 while there is none): TLC checks that
    the call is enabled, that it is refused exactly when the real call raised, and the discrete part of the post-state;
    for the real-valued part TLC prints the observables of the state it computed for each event (exponent
    vectors) and the harness compares the numbers recorded from the real objects with them.                    *)
@@ -10,12 +11,13 @@ NTr    == Len(Traces)
 VARIABLES tid, l
 TrLinks == {<<1, "e2", 2, "e1">>, <<2, "e2", 1, "e2">>}
 TrNone  == {}
+TrRamp  == 1..1000
 ASSUME \A t \in 1..NTr : TLCSet(t, 0)
 TInit == /\ tid \in 1..NTr /\ l = 1
-         /\ kind = [c \in Comp |-> Traces[tid].const.kind[c]]
-         /\ Tin  = [c \in Comp |-> Traces[tid].const.Tin[c]]
-         /\ T0   = [c \in Comp |-> Traces[tid].const.T0[c]]
-         /\ T = T0
+         /\ kind = [c \in Comp |-> IF c = 3 THEN "custom" ELSE Traces[tid].const.kind[c]]
+         /\ Tin  = [c \in Comp |-> IF c = 3 THEN 1 ELSE Traces[tid].const.Tin[c]]
+         /\ T0   = [c \in Comp |-> IF c = 3 THEN 1 ELSE Traces[tid].const.T0[c]]
+         /\ T = T0 /\ src = 0
          /\ p = [c \in Comp |-> [d \in MutDim |-> Nominal(c, d)]]
          /\ nd = [c \in Comp |-> Zero]
          /\ act = [n |-> "Init"] /\ err = ""
@@ -25,7 +27,9 @@ Step ==
     \/ A.n = "SetTemperature" /\ SetTemperature(A.c, A.t)
     \/ A.n = "SetDim" /\ SetDim(A.c, A.d, A.v, A.cold, A.retain)
     \/ A.n = "SetLink" /\ SetLink(A.c, A.d, A.c2, A.d2)
-Disc == [err |-> err, T |-> [c \in Comp |-> T[c]],
+    \/ A.n = "Ramp" /\ Ramp(A.c, A.t, A.k)
+    \/ A.n = "Copy" /\ Copy(A.c)
+Disc == [err |-> err, src |-> src, T |-> [c \in Comp |-> T[c]],
          link |-> [c \in Comp |-> [i \in 1..3 |-> p[c][<<"e1", "e2", "n">>[i]].k = "l"]]]
 ObsMatch == \/ Disc' = Ev.post
             \/ /\ Disc' # Ev.post
